@@ -348,6 +348,19 @@ func (s *Module) AddMPTBatch(index uint32, b mpt.Batch, cache *storage.MemCached
 	return &mpt, sr, nil
 }
 
+// DropMPTBatch is to be called when the block that AddMPTBatch was invoked for is
+// not going to be stored. The nodes of the trie returned by AddMPTBatch are shared
+// with the current one (and are changed in place, along with reference counters),
+// so the current trie is reloaded from its root.
+func (s *Module) DropMPTBatch() {
+	root := s.CurrentLocalStateRoot()
+	if root.Equals(util.Uint256{}) {
+		s.mpt = mpt.NewTrie(nil, s.mode, s.Store)
+		return
+	}
+	s.mpt = mpt.NewTrie(mpt.NewHashNode(root), s.mode, s.Store)
+}
+
 // UpdateCurrentLocal updates local caches using provided state root.
 func (s *Module) UpdateCurrentLocal(mpt *mpt.Trie, sr *state.MPTRoot) {
 	s.mpt = mpt
